@@ -67,6 +67,9 @@ def verdicts(ctx, run, sched, hz, obs, stop, early, src, case):
         ctx.violation(f"consumer-raises:{type(run.exception).__name__}", {**base, "exception": repr(run.exception)[:200]}, case)
         return
     # what the caller got
+    if stop and stop[0] == 'cancel-pull' and obs.raised is not None:
+        ctx.violation(f"closing-the-stream-after-a-cancelled-pull-raises:{type(obs.raised).__name__}", {**base, "exception": repr(obs.raised)[:200], "at": obs.raised_at}, case)
+        return
     if stop and stop[0] == 'abort' and obs.stopped:
         e = obs.raised
         reason = stop[1]
@@ -87,6 +90,16 @@ def verdicts(ctx, run, sched, hz, obs, stop, early, src, case):
     elif obs.raised is not None and not (stop and stop[0] == 'abort'):
         ctx.violation(f"payload-stream-raises:{type(obs.raised).__name__}", {**base, "exception": repr(obs.raised)[:200], "at": obs.raised_at}, case)
         return
+    if obs.partial_await_error is not None:
+        # awaiting the partial result of an aborted execution may only raise the abort reason (a mutation aborted between two
+        # of its root fields has no partial result)
+        e3, reason = obs.partial_await_error, (stop[1] if stop and stop[0] == 'abort' else Ellipsis)
+        ok = (e3 is reason) or (reason is None and isinstance(e3, AbortError)) or \
+            (reason is not Ellipsis and reason is not None and not isinstance(reason, Exception) and isinstance(e3, TypeError) and repr(reason)[:8] in str(e3))
+        ctx.count("aborted_results_that_raise_the_abort_reason")
+        if not ok:
+            ctx.violation(f"aborted-result-raises-something-else-than-the-abort-reason:{type(e3).__name__}", {**base, "exception": repr(e3)[:200]}, case)
+            return
     if obs.partial_error is not None:
         ctx.violation(f"closing-the-stopped-stream-raises:{type(obs.partial_error).__name__}",
                       {**base, "exception": repr(obs.partial_error)[:200], "after_raise": obs.closed_after_raise}, case)
@@ -151,14 +164,19 @@ def one(ctx, schema, doc, src, variables, value_fn, seed, p_async, policy, early
     case = {**base_case, "schedule_seed": seed, "p_async": p_async, "policy": policy, "early": early, "stop": repr(stop), "with_signal": with_signal}
     run, sched, hz, obs = run_incremental(schema, doc, variables, value_fn, seed, p_async=p_async, policy=policy, early=early, stop=stop,
                                           with_signal=with_signal, p_iter=0.9 if base_case["seed"] % 11 == 6 else 0.35,
-                                          source_burst=[1, 1, 1, 3, 8][seed % 5])
+                                          source_burst=[1, 1, 1, 3, 8][seed % 5], tof=base_case.get("tof", False))
     try:
         ctx.case()
         if stop is None:
             ctx.count("failure_only_runs")
+        elif stop[0] == 'cancel-pull' and obs.stopped is None:
+            ctx.count("cancel_pull_runs_where_the_payload_arrived_first")
+            stop = None
         else:
             ctx.count("stopped_runs")
-            ctx.count("aclose_stops" if stop[0] == 'aclose' else "abort_stops")
+            ctx.count({'aclose': "aclose_stops", 'abort': "abort_stops", 'cancel-pull': "cancel_pull_stops"}[stop[0]])
+            if len(stop) > 2:
+                ctx.count("aborted_before_the_execution_started")
         verdicts(ctx, run, sched, hz, obs, stop, early, src, case)
         return obs
     finally:
@@ -167,6 +185,9 @@ def one(ctx, schema, doc, src, variables, value_fn, seed, p_async, policy, early
 
 def check_request(ctx, seed, k):
     schema, src, variables, rng = c04.gen_request(seed, p_defer=0.4, p_stream=0.45)
+    schema, tof = c04.is_type_of_variant(schema, seed)
+    if tof:
+        ctx.count("requests_resolved_through_is_type_of")
     try:
         doc = parse(src)
     except GraphQLError:
@@ -181,7 +202,9 @@ def check_request(ctx, seed, k):
         # stream templates: every other request has list sources that raise after some items (stop kind "source raise")
         value_fn = make_value(schema, seed, 0.3, kinds=('iter_raise', 'null'))
         ctx.count("requests_with_failing_list_sources")
-    base_case = {"seed": seed, "source": src, "variables": variables, "fault_rate": fault}
+    base_case = {"seed": seed, "source": src, "variables": variables, "fault_rate": fault, "tof": tof}
+    if src.startswith('mutation'):
+        ctx.count("mutation_requests")
     states = set()
     for early in (False, True):
         s0 = seed * 1000 + (1 if early else 0)
@@ -195,6 +218,9 @@ def check_request(ctx, seed, k):
             # stop kind "source raise": more schedules of the unstopped run, the consumer must be released in each
             for j, pol in enumerate(('burst', 'slow-consumer', 'random', 'phases')):
                 one(ctx, schema, doc, src, variables, value_fn, s0 + 100 + j, [1.0, 0.7][j % 2], pol, early, None, False, base_case)
+        if rng.random() < 0.4:
+            # the signal is already aborted when the execution is started
+            one(ctx, schema, doc, src, variables, value_fn, s0, p_async, policy, early, ('abort', rng.choice([Reason('early'), 'plain', None]), 'before'), True, base_case)
         if obs is None or obs.kind != 'incremental':
             if obs is not None and obs.kind == 'single' and rng.random() < 0.5:
                 one(ctx, schema, doc, src, variables, value_fn, s0, p_async, policy, early, ('abort', Reason('stop')), True, base_case)
@@ -209,6 +235,13 @@ def check_request(ctx, seed, k):
                 o = one(ctx, schema, doc, src, variables, value_fn, s0 + 3, 1.0, 'slow-consumer', early, ('aclose', kk), False, base_case)
                 if o is not None and o.state_at_stop is not None:
                     states.add(o.state_at_stop)
+        for kk in range(0, npay + 1):
+            # the consumer gives up while its pull is in flight (a timeout around the pull, a disconnecting client): the pull is
+            # cancelled at a scheduler-chosen point, then the stream is closed
+            o = one(ctx, schema, doc, src, variables, value_fn, s0 + 11 + kk, p_async, ['random', 'lifo', 'slow-source'][(kk + seed) % 3], early, ('cancel-pull', kk),
+                    rng.random() < 0.3, base_case)
+            if o is not None and o.state_at_stop is not None:
+                states.add(o.state_at_stop)
         for reason in (Reason('stop'), 'plain-string-reason', None):
             for j in range(2):
                 o = one(ctx, schema, doc, src, variables, value_fn, s0 + 7 * (j + 1), p_async, 'random', early, ('abort', reason), True, base_case)
@@ -260,7 +293,7 @@ def run_shard(ctx):
     # the template families (streams on async sources, fragments split into several units of work, overlapping and
     # list-nested fragments) get a share of their own: they are where stops meet half-built incremental state
     for k in range(ctx.n(800, 12000)):
-        fam = (6, 6, 6, 10, 7, 9)[k % 6]
+        fam = (6, 6, 6, 10, 7, 9, 4)[k % 7]
         ctx.count("template_family_requests")
         check_request(ctx, (base + k) * 11 + fam, k + 1)
 
